@@ -270,7 +270,7 @@ class Engine(Interp):
                 # extras/defs may mention the destination itself (x = x + 1): lin computed before the kill
                 self.write_loc(s, dloc, val, lin, src)
                 if stmt["rv"]["k"] == "agg" and self.hooks.get("aggregate"):
-                    self.emit("aggregate", st=s, frame=frame, rv=stmt["rv"], span=mirlib.Span(stmt["span"]))
+                    self.emit("aggregate", st=s, frame=frame, rv=stmt["rv"], span=mirlib.Span(stmt["span"]), place=stmt["place"])
                 if defn is not None and "elem" not in dloc[1]:
                     if not any(v[0] == dloc[0] and v[1][:len(dloc[1])] == dloc[1] for v in _defvars(defn)):
                         s.defs[dloc] = defn
